@@ -20,7 +20,7 @@ ASSUME = ["scipy fit keeps a parameter exactly at a valid f-keyword's value", "t
 
 
 def run(prog, rep):
-    rep.explanation = EXPL
+    rep.explanation = EXPL + ' C11.evalflow: the parameter lookup and forwarding obligations of C08 (a fixed value reaches the template unchanged); C11.mle:fresh-keywords: the dict of fit keywords is created in the call.'
     rep.assumptions = ASSUME
     fams = families(prog, include_generic=True)
     for fam in fams:
